@@ -174,6 +174,35 @@ def h_rotation_map(env, N):
     env.goal('generator_unchanged', b_and(arr_eq(G.g, gg), eq(G.p, pg)))
 
 
+def h_neg_history(env, N, kind):
+    """-G is evaluated, G itself is then rotated in place (its string and sign change), -G is evaluated again: it is the
+    negative of G as it is now, and rotating by it undoes rotating by G"""
+    M = Mods(env)
+    gg = env.bits('gen', (2 * N,))
+    pg = env.signs('gen_sign', (1,))[0]
+    G = M.pa.Pauli(gg.copy(), pg)
+    first = env.run(lambda: -G)
+    env.goal('first_negation', b_and(b_not(first.raised), b_and(arr_eq(first.value.g, gg), eq(first.value.p, (pg + 2) % 4)) if first.value is not None else False))
+    kk = env.bits('k', (2 * N,))
+    pk = env.signs('k_sign', (1,))[0]
+    up = env.run(lambda: G.rotate_by(M.pa.Pauli(kk.copy(), pk)))
+    env.goal('update_no_exception', b_not(up.raised))
+    g2, p2 = ref.ref_rotate(kk, pk, gg, pg)
+    env.goal('generator_updated', b_and(arr_eq(G.g, g2), eq(G.p, p2)))
+    second = env.run(lambda: -G)
+    env.goal('second_negation_no_exception', b_not(second.raised))
+    if second.value is None:
+        return
+    nG = second.value
+    env.goal('second_negation_is_minus_current_G', b_and(arr_eq(nG.g, g2), eq(nG.p, (p2 + 2) % 4)))
+    env.goal('double_negation', (lambda r: b_and(b_not(r.raised), b_and(arr_eq(r.value.g, g2), eq(r.value.p, p2)) if r.value is not None else False))(env.run(lambda: -(-G))))
+    gs = env.bits('gs', (2, 2 * N))
+    ps = env.phases('ps', (2,))
+    obj = M.pa.PauliList(gs.copy(), ps.copy())
+    rr = env.run(lambda: obj.rotate_by(G).rotate_by(-G))
+    env.goal('minus_G_undoes_G', b_and(b_not(rr.raised), b_and(arr_eq(obj.gs, gs), arr_eq(obj.ps, ps))))
+
+
 def h_rotation_map_history(env, N, how):
     """request the map of a generator, change the returned map in place, request the map of the same generator again:
     the second answer is again conjugation by exp(i pi/4 G) (returned tables are the caller's to modify)"""
@@ -241,6 +270,8 @@ def jobs(tier):
                     continue
                 J.append(dict(harness=('c02', 'h_rotate_list'), params=dict(N=N, mask=m, L=(2 * N if kind == 'map' else 2), kind=kind)))
         J.append(dict(harness=('c02', 'h_rotation_map'), params=dict(N=N)))
+        if N <= 2:
+            J.append(dict(harness=('c02', 'h_neg_history'), params=dict(N=N, kind='pauli')))
         if N in (2, 3):
             for form in LAYOUTS[1:]:
                 for m in (None, [True] + [False] * (N - 1), [False] * (N - 1) + [True], [True] * (N - 1) + [False]):
